@@ -250,12 +250,12 @@ def shared_spec(draw, avoid_storm=False):
     another device on the same segment, so the gateway must forward the packet back out of the port it arrived on."""
     b = _B("shared", draw(st.sampled_from([1, 2])))
     plen = draw(st.sampled_from([24, 28]))
-    nd = draw(st.sampled_from([2, 2, 3]))
+    nd = draw(st.sampled_from([2, 3, 3]))
     seg_sw = b.switch()
     devs = []
     lans = []
     for i in range(nd):
-        fw = (i == nd - 1) and draw(st.integers(0, 2)) == 0
+        fw = (i == nd - 1) and draw(st.booleans())
         seg_ip = f"10.50.0.{i + 1}"
         if fw:
             # shared segment on the internal (2) or external (1) port; the other one carries a stub LAN
@@ -299,7 +299,30 @@ def shared_spec(draw, avoid_storm=False):
                         d["routes"].append([addr, lan["plen"], nh_ip, draw(st.sampled_from([0, 1, 5]))])
         if d["routes"] and draw(st.integers(0, 5)) == 0:
             d["routes"].pop(draw(st.integers(0, len(d["routes"]) - 1)))
-        d["routes"] = list(draw(st.permutations(d["routes"])))
+    # equal-prefix alternatives with different metrics, both next hops alive: device i (the firewall when there is one)
+    # also reaches a LAN of j through the third device k; the cheaper of the two must carry the packet, whichever is
+    # listed first.  k keeps its own direct route to j, so both ways deliver and only the path tells them apart.
+    muts = []
+    if nd == 3:
+        for i in ([nd - 1] if draw(st.booleans()) else []) + [draw(st.integers(0, nd - 1))]:
+            d = devs[i]
+            j = draw(st.sampled_from([x for x in range(nd) if x != i]))
+            k = next(x for x in range(nd) if x not in (i, j))
+            tl = [lan_ for lan_ in lans if lan_["r"] == j]
+            if not tl:
+                continue
+            lan_ = tl[draw(st.integers(0, len(tl) - 1))]
+            m_direct, m_detour = draw(st.sampled_from([(1, 5), (5, 1), (0, 1), (1, 0), (5, 0)]))
+            pair = [[lan_["net"], lan_["plen"], f"10.50.0.{j + 1}", m_direct],
+                    [lan_["net"], lan_["plen"], f"10.50.0.{k + 1}", m_detour]]
+            if draw(st.booleans()):
+                pair.reverse()
+            d["routes"] = pair + d["routes"] if draw(st.booleans()) else d["routes"] + pair
+            muts.append("equal_prefix_metrics:" + d["k"])
+    for d in devs:
+        if not any(m_.endswith(d["k"]) for m_ in muts) or draw(st.integers(0, 3)) == 0:
+            d["routes"] = list(draw(st.permutations(d["routes"])))
+    b.spec["muts"] = muts
     _fix_roles(b.spec, draw)
     _declare_off(b.spec, draw, p_any=4)
     return b.spec
@@ -395,7 +418,14 @@ def dmz_spec(draw, avoid_storm=False):
             r["ifs"].append([l + 1, dev, plen])
             b.attach_lan(draw, "r1", l + 1, dev, hips, plen, unused, draw(st.integers(1, 2)))
             if draw(st.integers(0, 5)) > 0:
-                fw["routes"].append([net, plen, "10.200.1.2", draw(st.sampled_from([0, 1]))])
+                good = [net, plen, "10.200.1.2", draw(st.sampled_from([0, 1]))]
+                if tpl != 30 and not avoid_storm and draw(st.booleans()):
+                    # same prefix, worse metric, next hop nobody owns: must lose whichever is listed first
+                    bad = [net, plen, "10.200.1.3", good[3] + draw(st.sampled_from([1, 4]))]
+                    fw["routes"] += [bad, good] if draw(st.booleans()) else [good, bad]
+                    b.spec.setdefault("muts", []).append("equal_prefix_metrics:firewall")
+                else:
+                    fw["routes"].append(good)
         if draw(st.booleans()):
             r["default"] = "10.200.1.1"
         else:
